@@ -58,6 +58,11 @@ PROJECTS = {
     'zope_rebound': [('zr', 'from zope.interface import Interface, Attribute\nimport zope.schema as schema\nclass IFoo(Interface):\n    def x(): "method"\n    x = Attribute("now an attribute")\n'
                             '    def f(): "method"\n    f = schema.TextLine(description="d")\n    class N: pass\n    N = Attribute("was a class")\n'
                             'class K:\n    def y(self): pass\n    y = Attribute("attr")\n', False)],
+    # the same with attrs: a method / static method / nested class whose name is then re-bound by attr.ib() or an annotated assignment
+    'attrs_rebound': [('ar', 'import attr\nfrom typing import ClassVar\n@attr.s\nclass Plain:\n    "doc"\n    def port(self):\n        "method first"\n    port = attr.ib(default=8080)\n'
+                             '    class Limits:\n        "nested class first"\n        high = 3\n    Limits = attr.ib(factory=dict)\n    normal = attr.ib(type=int)\n'
+                             '@attr.s(auto_attribs=True)\nclass Auto:\n    "doc"\n    @staticmethod\n    def build():\n        "static method first"\n    build: int = 3\n    other: int = 4\n'
+                             '    shared: ClassVar[int] = 1\n    class Inner:\n        x = 1\n    Inner: dict = attr.Factory(dict)\n', False)],
     # interfaces created by calling an InterfaceClass subclass, implemented by classes and provided by a module
     'zope_called': [('zc', '', True),
                     ('zc.ifaces', 'from zope.interface import Interface\nfrom zope.interface.interface import InterfaceClass\n'
